@@ -641,7 +641,8 @@ template <int N> static void fuzz_ray(Rng &r, long &cnt)
 //   float: one rounding of the exact midpoint (|error| <= 2^-24 |mid|, + one denormal ulp when a halving underflows); exact when the
 //          midpoint is representable and no bound is below 2^-125;
 //   int  : the route goes through float: exact truncated midpoint when |lower|,|upper| <= 2^23, else within 1 + 2^-22 max(|lower|,|upper|).
-//          (boxes with both bounds above INT_MAX-128 are not generated: float(bound) rounds to 2^31, whose conversion back is undefined)
+//          where the rounded float sum is 2^31 (upper >= INT_MAX-63 and lower >= INT_MAX-190) the conversion back to int is out of range:
+//          undefined behaviour, x86 returns INT_MIN - reported as KNOWN center-int-top (open finding), everything else as FAIL
 static float rand_mag(Rng &r)
 {
   switch (r.k(8)) {
@@ -682,10 +683,12 @@ static int mode_fuzzc(unsigned long long seed, long n)
     vec3i lo, hi;
     for (int i = 0; i < 3; i++) {
       long long a, b;
-      int fam = r.k(4);
-      long long span = fam == 0 ? 1000 : fam == 1 ? (1LL << 23) : 2147483647LL - 128;
+      int fam = r.k(6);
+      long long span = fam == 0 ? 1000 : fam == 1 ? (1LL << 23) : 2147483647LL;
       a = (long long)(r.g() % (unsigned long long)(2 * span + 1)) - span;
       b = (long long)(r.g() % (unsigned long long)(2 * span + 1)) - span;
+      if (fam == 4) { a = 2147483647LL - r.k(201); b = 2147483647LL - r.k(201); }      // [INT_MAX-200, INT_MAX]
+      if (fam == 5) { a = -2147483648LL + r.k(201); b = -2147483648LL + r.k(201); }    // [INT_MIN, INT_MIN+200]
       lo[i] = (int)std::min(a, b); hi[i] = (int)std::max(a, b);
     }
     box3i b3(lo, hi);
@@ -699,6 +702,15 @@ static int mode_fuzzc(unsigned long long seed, long n)
       cnt++;
       bool bad = small ? ((ld)c3[i] != want) : !(std::fabs((ld)c3[i] - mid) <= 1 + std::ldexp(mx, -22));
       if (i == 0 && c1 != c3[0]) bad = true;
+      volatile float fl = (float)lo[i], fh = (float)hi[i];
+      volatile float fsum = 0.5f * fl + 0.5f * fh;
+      if (bad && fsum >= 2147483648.f && c1 == c3[0]) {
+        std::ostringstream o;
+        o << "int component " << i << " lower=" << lo[i] << " upper=" << hi[i] << " center()=" << c3[i] << " midpoint=" << (double)mid
+          << " (.5f*float(lower)+.5f*float(upper) == 2^31: float->int conversion out of range)";
+        known("center-int-top", o.str());
+        continue;
+      }
       if (bad) {
         std::ostringstream o;
         o << "int component " << i << " lower=" << lo[i] << " upper=" << hi[i] << " center()=" << c3[i] << " range1i.center()=" << c1 << " midpoint=" << (double)mid
